@@ -1248,6 +1248,24 @@ def gen_langdup(tier):
                     yield {"g": "corpus", "cid": f"langdup:{sheet}:{txt}:{'|'.join(perm)}", "wb": wb, "drop": None}
 
 
+# settings-sheet headers: the documented ones, keys of pyxform's JSON form, attribute names of its element classes, unknown ones
+SETTINGS_HEADERS = ["form_title", "form_id", "version", "name", "default_language", "style", "public_key", "submission_url", "auto_send", "auto_delete",
+                    "instance_name", "namespaces", "instance_xmlns", "allow_choice_duplicates", "clean_text_values", "omit_instanceID", "flat", "prefix", "delimiter",
+                    "sms_keyword", "sms_separator", "sms_allow_media", "sms_date_format", "sms_datetime_format", "sms_response", "add_none_option", "compact_tag",
+                    "type", "children", "choices", "bind", "control", "instance", "attribute", "label", "hint", "media", "parameters", "itemset", "list_name", "action",
+                    "tags", "body", "parent", "extra_data", "title", "id_string", "entity_features", "_translations", "_xpath", "setvalues_by_triggering_ref",
+                    "setgeopoint_by_triggering_ref", "foo", "what ever", "q", "meta", "data", "trigger", "default", "relevant", "required", "appearance", "survey"]
+SETTINGS_VALUES = ["x", "group", "survey", "yes", "${q}", "1", "a=b", "<"]
+
+
+def gen_sethdr(tier):
+    """one settings column of any name: an XForm or the library's error"""
+    for h in SETTINGS_HEADERS:
+        for v in SETTINGS_VALUES:
+            wb = {"survey": [{"type": "text", "name": "q", "label": "Q"}], "settings": [{"form_id": "f1", h: v}]}
+            yield {"g": "corpus", "cid": f"sethdr:{h}={v}", "wb": wb, "drop": None, "sigkey": f"settings.{h}"}
+
+
 def check_corpus(case):
     wb = case["wb"]
     if case["drop"] is not None:
@@ -1267,13 +1285,15 @@ def check_corpus(case):
         if out.exc == "KeyError" and out.where.endswith(":add_choices_info_to_question") and ext_nofilter:
             # the listed defect (external select without a choice_filter), reached here by emptying that cell: same input feature, same signature
             sig = "internal-exception:KeyError:pyxform/xls2json.py:add_choices_info_to_question:col=choice_filter,type=select_one_external e"
+        if case.get("sigkey"):
+            sig = f"internal-exception:internal-key-header={case['sigkey']}"
         viol.append((sig, f"{out.exc} at {out.where}: {out.msg} corpus={case['cid']} drop={case['drop']} cell={case.get('cell')}"))
     elif out.kind == "reject" and not (out.msg or "").strip():
         viol.append(("empty-message:corpus", case["cid"]))
     return {"outcome": f"corpus-{out.kind}", "nt": case["drop"] is not None and not viol, "viol": viol, "tr": len(wb["survey"])}
 
 
-SPACE = GenSpace({"corpus": gen_corpus, "langdup": gen_langdup, "formnames": gen_formnames, "seq": gen_seq, "cat": gen_cat, "voc1": gen_voc1, "vocint": gen_vocint, "vocch": gen_vocch, "vocosm": gen_vocosm, "vocsel": gen_vocsel, "voc2": gen_voc2, "voc3": gen_voc3}, chunk=500)
+SPACE = GenSpace({"corpus": gen_corpus, "langdup": gen_langdup, "sethdr": gen_sethdr, "formnames": gen_formnames, "seq": gen_seq, "cat": gen_cat, "voc1": gen_voc1, "vocint": gen_vocint, "vocch": gen_vocch, "vocosm": gen_vocosm, "vocsel": gen_vocsel, "voc2": gen_voc2, "voc3": gen_voc3}, chunk=500)
 blocks = SPACE.blocks
 expand = SPACE.expand
 
